@@ -11,3 +11,31 @@ package timeouts
 //@ use casketfile/contracts_verif.go:dispenser_api
 //@ use @verif/specs/stdlib.spec:stdlib
 //@ use @verif/specs/stdlib.spec:casket_api
+
+//@ unit timeouts_setup props=C17 filter=`timeouts\.setupTimeouts$`
+//@ // "the strictest of the values the sites configure" needs every configured value recorded: each occurrence of the
+//@ // directive is either read as a block (at least one entry) or parsed in its plain one-argument form, or the load
+//@ // is rejected; none is skipped. Ghost protocol over the token cursor API: between two c.Next() calls a block entry
+//@ // was read (first c.Val()) or the plain argument was asked for (third c.NextArg() site).
+//@ use casketfile/contracts_verif.go:dispenser_api
+//@ use @verif/specs/stdlib.spec:stdlib
+//@ use @verif/specs/stdlib.spec:casket_api
+//@ ghost occurrences int
+//@ ghost blockEntries int
+//@ ghost plainForms int
+//@ extern time.ParseDuration
+//@ func setupTimeouts
+//@   requires c != nil && occurrences == 0 && blockEntries == 0 && plainForms == 0
+//@   modifies ghost:occurrences, ghost:blockEntries, ghost:plainForms, Dispenser.cursor, Dispenser.nesting, SiteConfig.Timeouts
+//@   at call (*Dispenser).Next assert [no_occurrence_skipped] occurrences == 0 || blockEntries + plainForms >= 1
+//@   at call (*Dispenser).Next do occurrences = occurrences + 1
+//@   at call (*Dispenser).Next do blockEntries = 0
+//@   at call (*Dispenser).Next do plainForms = 0
+//@   at call (*Dispenser).Val#1 do blockEntries = blockEntries + 1
+//@   at call (*Dispenser).NextArg#3 do plainForms = plainForms + 1
+//@   loop 1 invariant c != nil && occurrences >= 0 && (occurrences == 0 || blockEntries + plainForms >= 1)
+//@   loop 2 invariant c != nil
+//@   loop 2 invariant occurrences >= 1
+//@   loop 2 invariant hasOptionalBlock == (blockEntries >= 1)
+//@   loop 2 invariant blockEntries >= 0
+//@   loop 2 invariant plainForms == 0
